@@ -60,6 +60,7 @@ func runF(op string, in M) (M, M) {
 		copy(a[:], vBytes(in["addr"]))
 		var t string
 		p := vCatch(func() { t = string(Encode(a)) })
+		vKeepStr("migration.Encode result", t)
 		out := M{"trytes": vInts([]byte(t)), "panic": p, "dec_ok": false, "dec_addr": []int{}}
 		var d [32]byte
 		var err error
